@@ -992,4 +992,39 @@ func (e *Engine) orderProbe() {
 		}
 		e.logEnts("order-probe", seq)
 	}
+	// one target with children under every relation type, a registered filter listing their tables followed by
+	// later ones; the children leave, then the target dies: all its (empty) tables are retired in one go, and the
+	// order in which that happens shows in the order of the registered filter's remaining tables
+	var rels []ecs.ID
+	for t, reg := range e.S.Reg {
+		if reg && e.P.Types[t].IsRelation() && !e.P.Types[t].IsPtr() {
+			rels = append(rels, e.S.IDs[t])
+		}
+	}
+	if len(rels) < 2 {
+		return
+	}
+	all := ecs.All()
+	cf := w.Cache().Register(all)
+	tg, other := w.NewEntity(), w.NewEntity()
+	var kids []ecs.Entity
+	for _, id := range rels {
+		kids = append(kids, ecs.NewBuilder(w, id).WithRelation(id).New(tg))
+	}
+	for _, id := range rels {
+		ecs.NewBuilder(w, id).WithRelation(id).New(other)
+		ecs.NewBuilder(w, id).WithRelation(id).New(kids[0]) // a child of a child: yet another table behind them
+	}
+	for _, k := range kids[1:] {
+		w.RemoveEntity(k)
+	}
+	w.Relations().Set(kids[0], rels[0], other)
+	w.RemoveEntity(tg)
+	q := w.Query(&cf)
+	var seq []ecs.Entity
+	for q.Next() {
+		seq = append(seq, q.Entity())
+	}
+	e.logEnts("order-probe-registered", seq)
+	w.Cache().Unregister(&cf)
 }
